@@ -712,9 +712,45 @@ func runC01(c *Ctx) error {
 		{{"fd30::/12", "fd50::/12"}, {"fd30:8000::/17"}},
 		{{"fc00::/7"}, {}},           // partly outside fd00::/8
 		{{"f000::/4"}, {"fd80::/9"}}, // mostly outside
+		// ignored ranges wider than an acceptable prefix they cover, with a base address outside every
+		// acceptable prefix, written with host bits (as local interface prefixes are), spanning two
+		// acceptable prefixes
+		{{"fd10::/12", "fd20::/12"}, {"fd00::/11"}},
+		{{"fd40::/10", "fd80::/10"}, {"fd00::/9"}},
+		{{"fd12::/16", "fd13::/16", "fd70::/12"}, {"fd12:9999::1/15"}},
+		{{"fd20::/12", "fd30::/12", "fd60::/11"}, {"fd28::/13", "fd30::/13"}},
+		{{"fd50::/12"}, {"fd50:8000::1/17", "fd40::/13"}},
 	}
-	for i, n := 0, c.Pick(30, 200); i < n; i++ {
+	for i, n := 0, c.Pick(40, 240); i < n; i++ {
 		ps := prefixSets[c.Rng.IntN(len(prefixSets))]
+		if i%4 == 3 {
+			// random sets: two or three acceptable prefixes of 9..12 bits in fd00::/8, one or two ignored
+			// ranges of 9..13 bits anywhere in fd00::/8 (host bits left as drawn)
+			rp := func(lo, hi int) string {
+				bits := lo + c.Rng.IntN(hi-lo+1)
+				return fmt.Sprintf("fd%02x:%04x::%d/%d", c.Rng.IntN(256), c.Rng.IntN(65536), 1+c.Rng.IntN(9), bits)
+			}
+			var accS, ignS []string
+			for k := 2 + c.Rng.IntN(2); k > 0; k-- {
+				accS = append(accS, netip.MustParsePrefix(rp(9, 12)).Masked().String())
+			}
+			for k := 1 + c.Rng.IntN(2); k > 0; k-- {
+				ignS = append(ignS, rp(9, 13))
+			}
+			room := false
+			for _, as := range accS {
+				ap, covered := netip.MustParsePrefix(as), false
+				for _, is := range ignS {
+					ip := netip.MustParsePrefix(is)
+					covered = covered || (ip.Bits() <= ap.Bits() && ip.Masked().Contains(ap.Addr()))
+				}
+				room = room || !covered
+			}
+			if !room {
+				continue
+			}
+			ps = [2][]string{accS, ignS}
+		}
 		var acc, ign []netip.Prefix
 		for _, s := range ps[0] {
 			acc = append(acc, netip.MustParsePrefix(s))
